@@ -15,6 +15,7 @@ import Indi.Model.Dev
 import Indi.Spec.Dev
 import Indi.Spec.Cli
 import Indi.Spec.Wait
+import Indi.Model.Send
 
 open Indi Indi.Wire
 
@@ -296,6 +297,20 @@ def devRun : Dev.Device → List Dev.Op → List String
   | _, [] => []
   | d, op :: rest => let r := Dev.step d op; encDevResult r :: devRun r.dev rest
 
+/-! send component -/
+
+def pSendStep : P Send.Step := do
+  let t ← tok
+  match t with
+  | "R" => do let m ← pNat; pure (.route m)
+  | "S" => pure .start
+  | "C" => pure .complete
+  | _ => fail
+
+def sendTrace : Send.Conn → List Send.Step → List String
+  | _, [] => []
+  | c, st :: rest => let c' := Send.step c st; encIds c'.out :: sendTrace c' rest
+
 /-! wait component -/
 
 def pWaitCfg : P Wait.Cfg := do
@@ -482,6 +497,25 @@ def handle (ts : List String) : String :=
     match runP (do let a ← pMsg; let b ← pMsg; pure (a, b)) rest with
     | some (a, b) => encBool (Spec.Dev.norm a == Spec.Dev.norm b)
     | none => "bad-op"
+  | "send" :: "run" :: tr :: rest =>
+    match runP (pList pSendStep) rest with
+    | some steps =>
+      let t : Send.Transport := if tr = "tty" then .tty else .tcp
+      String.intercalate " | " (sendTrace { transport := t } steps)
+    | none => "bad-op"
+  | "send" :: "runmarks" :: tr :: rest =>
+    match runP (do let marks ← pList pNat; let steps ← pList pSendStep; pure (marks, steps)) rest with
+    | some (marks, steps) =>
+      let t : Send.Transport := if tr = "tty" then .tty else .tcp
+      let trace := sendTrace { transport := t } steps
+      String.intercalate " | " (marks.map fun i => trace.getD i "?")
+    | none => "bad-op"
+  | "spec" :: "send" :: rest =>
+    -- oracle: every observed output is a prefix of the routed sequence, and the final one is all of it when nothing is pending
+    match runP (do let routed ← pList pNat; let outs ← pList (pList pNat); let drained ← pBool; pure (routed, outs, drained)) rest with
+    | some (routed, outs, drained) =>
+      encBool (outs.all (fun o => o.isPrefixOf routed) && (!drained || outs.getLast? == some routed || (outs.isEmpty && routed.isEmpty)))
+    | none => "bad-op"
   | "wait" :: "run" :: rest =>
     match runP (do let c ← pWaitCfg; let b ← pList pBatch; let h ← pNat; pure (c, b, h)) rest with
     | some (c, b, h) =>
@@ -603,6 +637,24 @@ def handle (ts : List String) : String :=
   | "router" :: "hist" :: rest =>
     match runP (pList pOp) rest with
     | some h => encTrace (Rtr.trace Rtr.init h)
+    | none => "bad-op"
+  | "router" :: "state" :: rest =>
+    match runP (pList pOp) rest with
+    | some h => encRState (Rtr.run h)
+    | none => "bad-op"
+  | "router" :: "deliveries" :: idx :: rest =>
+    match runP (pList pOp) rest, idx.toNat? with
+    | some h, some i => String.intercalate " " (((Rtr.trace Rtr.init h).getD i []).map encTarget)
+    | _, _ => "bad-op"
+  | "spec" :: "c18" :: rest =>
+    -- an ended connection must be: not registered, writer closed, handler finished, and receive nothing
+    match runP (do let a ← pBool; let b ← pBool; let c ← pBool; let d ← pBool; pure (a, b, c, d)) rest with
+    | some (registered, stillOpen, running, gotTraffic) => encBool (!registered && !stillOpen && !running && !gotTraffic)
+    | none => "bad-op"
+  | "spec" :: "c12conn" :: rest =>
+    -- after a hostile-but-well-formed message the sending connection is still registered, open and serving
+    match runP (do let a ← pBool; let b ← pBool; let c ← pBool; pure (a, b, c)) rest with
+    | some (registered, isOpen, running) => encBool (registered && isOpen && running)
     | none => "bad-op"
   | "spec" :: "router" :: rest =>
     match runP (pList pOp) rest with
